@@ -662,9 +662,9 @@ def levels_check(ctx, prop):
         i = rj["index"]
         lines = ctx.trace_lines(tp, summ, i)
         compacted = any('"ev":"Compact"' in ln for ln in lines[:rj["rel"]])
-        # before any compaction a wrong lookup is a lookup defect (C10); afterwards compaction changed an answer (C09)
-        owner = "C09" if compacted else "C10"
-        if owner != prop:
+        # a wrong answer for ts >= watermark contradicts C10 wherever it happens ("the newest version any table
+        # holds"); it contradicts C09 when a compaction preceded it
+        if prop == "C09" and not compacted:
             continue
         rp = ctx.save_replay("%s-%s.lktrace.ndjson" % (prop.lower(), summ["metas"][i]["id"]), lines)
         ctx.violation(rp, "the lookup contract rejects the recorded level-manager run %s at event %d: %s" % (
